@@ -147,7 +147,8 @@ def work(job):
         n_bad = 0
         n_expected = 0
         out["skipped"] = 0
-        case_budget_s = float(os.environ.get("VERIF_CASE_BUDGET_S", "900" if tier == "quick" else "3600"))
+        case_budget_s = float(os.environ.get("VERIF_CASE_BUDGET_S", "600" if tier == "quick" else "3600"))
+        ex.deadline = t0 + case_budget_s
         first = True
         for path, P in ex.run(body):
             out["paths"] += 1
@@ -176,6 +177,7 @@ def work(job):
                     n_bad += 1
             first = False
         out["slow"] = sorted([(o["secs"], o["name"], o["route"]) for o in out["obligations"]], reverse=True)[:3]
+        out["truncated"] = ex.truncated
         out["forced"] = ex.infeasible
         out["feas"] = dict(STATS)
         # encoding validation + reachability witness (shard 0 only)
@@ -380,6 +382,8 @@ def finish(mod, modname, prop, args, seed, cases, results, t0, extra=()):
                 inconclusive.append("%s: no validation point satisfied the assumptions (vacuity guard)" % r["case"])
         if r.get("skipped"):
             skipped_cases.append((r["case"], r["skipped"]))
+        if r.get("truncated"):
+            skipped_cases.append((r["case"], -1))
         for rec in r["obligations"]:
             n_ob += 1
             solver_s += rec["secs"]
@@ -472,7 +476,7 @@ def finish(mod, modname, prop, args, seed, cases, results, t0, extra=()):
         violations.append(path)
     for cname, nsk in skipped_cases:
         if not violations and not any(cname in s for s in inconclusive):
-            inconclusive.append("%s: %d obligation(s) skipped after earlier undischarged ones / budget" % (cname, nsk))
+            inconclusive.append("%s: %s" % (cname, "path exploration stopped at the time budget" if nsk < 0 else "%d obligation(s) skipped after earlier undischarged ones / budget" % nsk))
     wall = time.time() - t0
     from . import loader
 
